@@ -289,12 +289,14 @@ def load(mutations=None):
 
 _GLOBALS0 = []      # (module dict, name, pristine deep copy) of module-level lists/dicts/sets
 _CLASSATTR0 = []    # (class, name, pristine deep copy) of mutable class attributes (shared by all instances)
+_SCALARS0 = []      # (module dict, name, value) of module-level immutable globals
 
 
 def _snapshot_module_globals(mods):
     import copy
     del _GLOBALS0[:]
     del _CLASSATTR0[:]
+    del _SCALARS0[:]
     for m in mods.values():
         for k, v in list(m.__dict__.items()):
             if k.startswith('__'):
@@ -304,6 +306,10 @@ def _snapshot_module_globals(mods):
                     _GLOBALS0.append((m.__dict__, k, copy.deepcopy(v)))
                 except Exception:
                     pass
+            elif v is None or isinstance(v, (bool, int, float, str, tuple, frozenset)):
+                # rebindable scalars (latches, counters, "not yet known" sentinels): a path must start
+                # from the value the import left, not from what another path stored there
+                _SCALARS0.append((m.__dict__, k, v))
             elif isinstance(v, type) and getattr(v, '__module__', None) == m.__name__:
                 for ak, av in list(vars(v).items()):
                     if not ak.startswith('__') and isinstance(av, (list, dict, set)):
@@ -331,6 +337,9 @@ def clear_caches():
             cur.update(v0)
         else:
             d[k] = copy.deepcopy(v0)
+    for (d, k, v0) in _SCALARS0:
+        if d.get(k) is not v0:
+            d[k] = v0
     for (cls, k, v0) in _CLASSATTR0:
         cur = vars(cls).get(k)
         if isinstance(cur, list) and isinstance(v0, list):
